@@ -200,6 +200,16 @@ class Typer:
                     return None
                 out = t if out is None else (out | t)
             return out
+        if isinstance(e, ast.Call) and isinstance(e.func, ast.Attribute) and isinstance(e.func.value, ast.Call) \
+                and isinstance(e.func.value.func, ast.Name) and e.func.value.func.id == 'super' and not e.func.value.args and fn.cls is not None:
+            # super().method(...): the next definition along the MRO; `Self` in its annotation is the class of the caller
+            for k in fn.cls.mro[1:]:
+                s = k.attrs.get(e.func.attr)
+                if isinstance(s, FuncInfo) and s.kind in ('method', 'classmethod', 'staticmethod'):
+                    if s.node.returns is not None and norm(s.node.returns).rsplit('.', 1)[-1].strip('\'"') == 'Self':
+                        return Ty(frozenset([fn.cls]))
+                    return self.ann(s.module, s.node.returns, fn.cls)
+            return None
         if isinstance(e, ast.Call) and isinstance(e.func, ast.Attribute):
             base = self.expr(fn, e.func.value, local)
             if base is None or len(base.classes) != 1:
@@ -246,7 +256,7 @@ class Typer:
             elif isinstance(n, ast.Assign):
                 for t in n.targets:
                     for x in ast.walk(t):
-                        if isinstance(x, ast.Name):
+                        if isinstance(x, ast.Name) and isinstance(x.ctx, ast.Store):       # `m.a, m.b = ...` does not rebind m
                             other.add(x.id)
             elif isinstance(n, (ast.With, ast.ExceptHandler, ast.MatchAs, ast.MatchStar)):
                 nm = getattr(n, 'name', None)
